@@ -25,21 +25,36 @@ func hC02DPoPParse(s string) (*dpop.DPoP, error) {
 	return &dpop.DPoP{Kid: "kid"}, nil
 }
 
+// hC02B64Sym maps a six-bit group to its symbol in the URL-safe alphabet of RFC 4648 section 5 (Table 2),
+// by ranges (no table lookup: a symbolic table index would fork).
+func hC02B64Sym(v uint) byte {
+	c := byte('_')
+	if v < 26 {
+		c = 'A' + byte(v)
+	} else if v < 52 {
+		c = 'a' + byte(v-26)
+	} else if v < 62 {
+		c = '0' + byte(v-52)
+	} else if v == 62 {
+		c = '-'
+	}
+	return c
+}
+
 // hC02B64URL is an independently written unpadded base64url encoder (RFC 4648 section 5).
 func hC02B64URL(in []byte) string {
-	const abc = "ABCDEFGHIJKLMNOPQRSTUVWXYZabcdefghijklmnopqrstuvwxyz0123456789-_"
 	var out []byte
 	acc, bits := uint(0), 0
 	for _, b := range in {
-		acc = acc<<8 | uint(b)
+		acc = (acc<<8 | uint(b)) & 0xffff
 		bits += 8
 		for bits >= 6 {
 			bits -= 6
-			out = append(out, abc[(acc>>uint(bits))&63])
+			out = append(out, hC02B64Sym((acc>>uint(bits))&63))
 		}
 	}
 	if bits > 0 {
-		out = append(out, abc[(acc<<uint(6-bits))&63])
+		out = append(out, hC02B64Sym((acc<<uint(6-bits))&63))
 	}
 	return string(out)
 }
@@ -55,13 +70,18 @@ func hC02PKCERef(method, challenge, verifier string) bool {
 	return challenge == hC02B64URL(h[:])
 }
 
+// hC02SymMethod: a code_challenge_method. `methods` (param) selects how many of the classes are explored:
+// "S256", "plain", any 4-byte string, "", any string of 1..5 bytes.
 func hC02SymMethod() string {
-	switch vChoice(4) {
+	switch vChoice(vParam("methods", 3)) {
 	case 0:
 		return "S256"
 	case 1:
 		return "plain"
 	case 2:
+		vTag("method")
+		return vString(4)
+	case 3:
 		return ""
 	}
 	vTag("method")
@@ -152,7 +172,10 @@ func H02f() {
 		ClientId:     hC02OptString("client_id", vLen(0, 1)),
 	}
 	dpopHeader := vBool()
-	hC02DPoPOK = vBool()
+	hC02DPoPOK = true
+	if dpopHeader {
+		hC02DPoPOK = vBool()
+	}
 	hC02Clock = t1.t
 	codeLive := false
 	if req.Code != nil {
